@@ -48,7 +48,7 @@ P = {
                  "C05_unsigned_rejected", "C05_modified_or_foreign_token_rejected", "C05_alg_confusion_rejected",
                  "C05_merge_precedence", "C05_algorithm_tables", "C05_claim_decoding", "C05_scope_matching",
                  "C05_accepted_scopes_satisfied", "C05_nonvacuous",
-                 "C05_cache_history_stateless", "C05_judged_statelessly_unfold", "C05_cache_history_spec", "C05_F6_refuted", "C05_cache_fixed_history_spec",
+                 "C05_cache_history_stateless", "C05_judged_statelessly_unfold", "C05_cache_history_spec", "C05_cache_pinned_F6_history_stateless", "C05_F6_refuted",
                  "C05_cache_pinned_history_stateless",
                  "C05_F4_pinned_refuted", "C05_cache_transparent", "C05_cache_examples"],
     "streams": [{
@@ -137,9 +137,8 @@ P = {
                   "changing in between) every answer equals the cache-less answer against the key set that is or was published at "
                   "the request's own rendered URL, the present one when the token has no kid or the cache is off - a cached key "
                   "is never reused for another url or kid, and a cached key is validated with the settings of the mechanism at hand "
-                  "(C05_cache_history_stateless/_spec/_transparent; cache entries are keyed by rendered url, kid and configured "
-                  "cache_ttl) - for histories without a template in a header only, and otherwise outside the open finding C05-F6; "
-                  "with the proposed repair for all histories (C05_cache_fixed_history_spec). Claim decoding and the three scope matching "
+                  "(C05_cache_history_stateless/_spec/_transparent, for all histories; cache entries are keyed by the rendered url and "
+                  "templated header values, kid and configured cache_ttl). Claim decoding and the three scope matching "
                   "strategies are proved equal to declarative relations stated in the specification (C05_claim_decoding, "
                   "C05_scope_matching). Two deviations found "
                   "by the model (exp <= 0 never expired; nbf/iat >= 2^63 wrapped to 'not set') were repaired by fix: commits "
@@ -148,10 +147,12 @@ P = {
                   "repaired by d20d7cd (C05-F4: a cached JWK was reused without validation by a mechanism that validates JWK "
                   "certificates after a laxer one sharing endpoint and cache had stored it; pinned: C05_cache_pinned_history_stateless, "
                   "C05_F4_pinned_refuted) and d55629a (C05-F5: with no issuers configured and metadata without issuer a token "
-                  "without iss was accepted; the model has the repair, C05_F5_fixed). Open, each with guard, witness and corpus "
-                  "replay: C05-F3 (exp = -62135596800, Go's zero time, still counts as absent) and C05-F6 (a {{ .TokenIssuer }} "
-                  "template in a jwks_endpoint HEADER does not reach the key-cache key, so issuers behind one url share entries "
-                  "per kid: cross-issuer forgery after the other issuer's key was cached; fixes/C05-F6.diff). The model is tied to the code by running "
+                  "without iss was accepted; the model has the repair, C05_F5_fixed). C05-F6, found when the keycache stream got "
+                  "header templates (seeded round 4), was repaired by 4a30678: a {{ .TokenIssuer }} template in a jwks_endpoint "
+                  "HEADER did not reach the key-cache key, so issuers behind one url shared entries per kid (cross-issuer forgery "
+                  "after the other issuer's key was cached); pinned: C05_cache_pinned_F6_history_stateless and the witness about "
+                  "the old keying C05_F6_refuted. One finding stays open with guard, witness and corpus replay: C05-F3 (exp = "
+                  "-62135596800, Go's zero time, still counts as absent). The model is tied to the code by running "
                   "~1500 (quick) / 40000 (thorough) generated and mutated tokens and ~500 / 12000 request histories with a real "
                   "memory cache per run through the real authenticator against a local JWKS server.",
     "level_note": "Partial by construction: signature verification, JSON/JWS parsing and certificate validation are oracles (trusted "
@@ -164,8 +165,8 @@ P = {
                   "claims' is checked on the Go side (attributes deep-equal the sent payload) and has no theorem (the model has one "
                   "claims record per token, the statement would be true by construction, as 'subject id from the claims' is). Cache entry expiry, metadata_endpoint discovery with templates, custom "
                   "jwt_source and subject "
-                  "attribute templates are not exercised (metadata_endpoint with a fixed URL is). Open findings C05-F3 and C05-F6 are printed as KNOWN-FINDING on every run; C05-F1, F2, F4, F5 are fixed (reverting any of the "
-                  "four commits is reported as VIOLATION with a replay). Reverting 8647e06 (cache_ttl in the cache key, C10-F5) is "
+                  "attribute templates are not exercised (metadata_endpoint with a fixed URL is). Open finding C05-F3 is printed as KNOWN-FINDING on every run; C05-F1, F2, F4, F5, F6 are fixed (reverting any of the "
+                  "five commits is reported as VIOLATION with a replay). Reverting 8647e06 (cache_ttl in the cache key, C10-F5) is "
                   "reported as 'correspondence broken, no failing input': sharing entries between copies with different ttl is not "
                   "a C05 violation.",
     "extra_coverage": site_coverage,
